@@ -3,7 +3,7 @@ C24 — Selector unify/extend/replace/nest/append obey their algebra (partial).
 
 Models: Sel/Unify.lean, Sel/Extend.lean (+ Sel/Nest.lean of the C19 family for nesting and
 compound append).  `unifySpec` / `nestSpec` = the specification, `unifyAsis` = the code as it is;
-since d714329 the nesting code is `nestSpec`, the old code is `{ ampViaUnify := true }`.  Extend / replace laws are proved for EVERY superselector test `S`, unifier `U`
+since d714329 the nesting code is `nestAsis` (= `{}`), the old code is `{ ampViaUnify := true }`.  Extend / replace laws are proved for EVERY superselector test `S`, unifier `U`
 and dedup `D` (list plumbing only).  Complex-selector unification (`unify_relbox`) is
 modelled and tied to the code by correspondence; no soundness theorem is claimed for it.
 -/
@@ -256,7 +256,7 @@ theorem append_eq_amp_suffix (a : SelSet) (c : Compound) (R : SelSet)
   exact resolveOneList_of_append c a R h
 
 /-- **Refutation** for the code before fix d714329 (flag `ampViaUnify`; finding C24-amp-via-unify, now
-fixed — the code today is the `nestSpec` path of `append_eq_amp_suffix`): `selector.append(".a",
+fixed — the code today is the `nestAsis` path of `append_eq_amp_suffix`): `selector.append(".a",
 ".a")` is `.a.a` but the rule `.a { &.a {…} }` emits `.a`. -/
 theorem append_asis_refuted :
     (fnAppend [.leaf (Compound.ofClass "a")] [.leaf (Compound.ofClass "a")]).map (SelSet.print false)
